@@ -17,7 +17,7 @@ import itertools
 import numpy as np
 
 ID = "C15"
-VARIANT = None
+VARIANT = "plain"  # the DFT-level kernel imports the baselines, which load the C library
 LEVEL_RULE = (
     "states = kernel expression trees (leaf class x hyper-parameter alphabet; all binary compositions of leaves with + and x; "
     "unary power / subset / spin-symmetrised / transformed / active-dims wrappers); each state is checked on fixed X (6x4 incl. "
@@ -121,13 +121,136 @@ def initial_cases(tier, seed):
         for a, b, c in itertools.product(BASIC[:9], BASIC[:9], BASIC[:9]):
             cases.append({"tree": ["+", ["*", ["leaf", a], ["leaf", b]], ["leaf", c]]})
             cases.append({"tree": ["*", ["+", ["leaf", a], ["leaf", b]], ["leaf", c]]})
+    # DFT-level kernel (dft_kernel.DFTKernel): spin modes x nspin x component kernel x control-point reduction
+    for mode, nspin, kk, red in itertools.product(("SEP", "NPOL", "POL"), (1, 2), ("RBF", "cRBF", "ARBF", "Sum"), (False, True)):
+        cases.append({"dft": True, "mode": mode, "nspin": nspin, "kk": kk, "reduce": red})
     for c in cases:
         c["seed"] = seed
     return cases
 
 
 def case_label(c):
+    if c.get("dft"):
+        return "DFTKernel;mode=%s;nspin=%d;kernel=%s;reduce=%s" % (c["mode"], c["nspin"], c["kk"], c["reduce"])
     return _name(c["tree"])
+
+
+def run_dft(case):
+    """DFTKernel.get_k / get_k_and_deriv / get_kctrl: own evaluation of the documented definition (transformed features per
+    spin mode; polarised kernel k_aa k_bb + k_ab k_ba), and the input derivative against Richardson differences."""
+    from ciderpress.dft import transform_data as T
+    from ciderpress.dft.baselines import BASELINE_CODES
+    from ciderpress.models import kernels as K
+    from ciderpress.models.dft_kernel import DFTKernel
+
+    fails = []
+    mode, nspin, kk = case["mode"], case["nspin"], case["kk"]
+    ck = case_label(case)
+    fl = T.FeatureList([T.UMap(1, 0.4), T.VMap(2, 0.6, scale=1.0, center=0.0), T.TMap(1, 2)])
+    ls = np.array([0.5, 0.8, 0.65])
+    base = {"RBF": lambda: K.DiffRBF(length_scale=ls), "cRBF": lambda: K.DiffConstantKernel(1.7) * K.DiffRBF(length_scale=ls),
+            "ARBF": lambda: K.DiffARBF(order=2, length_scale=ls, scale=np.array([0.2, 0.7, 0.4])),
+            "Sum": lambda: K.DiffRBF(length_scale=ls) + 0.3 * K.DiffPolyKernel(gamma=np.array([0.2, 0.3, 0.25]), order=2)}[kk]
+    rng = np.random.RandomState(31 + case["seed"])
+
+    def raw(ns, n):
+        x = np.empty((ns, 3, n))
+        x[:, 0] = 0.2 + rng.rand(ns, n)        # density-like
+        x[:, 1] = 0.05 + 1.5 * rng.rand(ns, n)  # s^2-like
+        x[:, 2] = 0.05 + 1.2 * rng.rand(ns, n)  # alpha-like
+        return x
+
+    dk = DFTKernel(base(), fl, mode, BASELINE_CODES["LDA_X"], BASELINE_CODES["ZERO"], ctrl_tol=1e-3)
+    cand = [raw(nspin, 7), raw(nspin, 6)]
+    try:
+        dk.set_control_points(cand, reduce=case["reduce"])
+    except Exception as e:
+        return {"fail": [{"key": "dft-cannot-evaluate;%s;%s" % (ck, type(e).__name__), "msg": "set_control_points raised %s: %s" % (type(e).__name__, str(e)[:150])}], "evals": 1, "outcome": "raised"}
+    Xc = np.asarray(dk.X1ctrl)
+    kern = dk.kernel
+
+    def desc(X0T, s):
+        out = np.zeros((X0T.shape[2], fl.nfeat))
+        fl.fill_vals_(out.T, X0T[s])
+        return out
+
+    def pol_rows(X0T):
+        # what one sample row of each channel is, per the class docstring: mean over spins for NPOL, per spin otherwise
+        if mode == "NPOL":
+            m = np.zeros((X0T.shape[2], fl.nfeat))
+            fl.fill_vals_(m.T, X0T.mean(0))
+            return [m]
+        return [desc(X0T, s) for s in range(X0T.shape[0])]
+
+    def own_k(X0T):
+        rows = pol_rows(X0T)
+        if mode == "POL":
+            a, b = (rows[0], rows[0]) if len(rows) == 1 else rows
+            return (kern(a, Xc[0]) * kern(b, Xc[1]) + kern(a, Xc[1]) * kern(b, Xc[0])).T
+        if mode == "NPOL":
+            return kern(rows[0], Xc).T
+        return np.stack([kern(r, Xc).T for r in rows], axis=1)  # (nctrl, nspin, nsamp)
+
+    # control-point covariance
+    Kmm = np.asarray(dk.get_kctrl())
+    if mode == "POL":
+        want = kern(Xc[0], Xc[0]) * kern(Xc[1], Xc[1]) + kern(Xc[0], Xc[1]) * kern(Xc[1], Xc[0])
+    else:
+        want = kern(Xc, Xc)
+    sc = 1 + np.abs(want).max()
+    if Kmm.shape != want.shape or np.abs(Kmm - want).max() > 1e-12 * sc:
+        fails.append({"key": "dft-kctrl;" + ck, "msg": "get_kctrl differs from the kernel of the control points"})
+    elif np.abs(Kmm - Kmm.T).max() > 1e-12 * sc or np.linalg.eigvalsh(0.5 * (Kmm + Kmm.T)).min() < -1e-10 * sc:
+        fails.append({"key": "dft-kctrl-psd;" + ck, "msg": "control-point covariance not symmetric positive semi-definite"})
+    if case["reduce"]:
+        allc = dk.X0Tlist_to_X1array(cand)
+        pts = Xc.reshape(-1, Xc.shape[-1]) if mode != "POL" else Xc[0]
+        pool = allc.reshape(-1, allc.shape[-1]) if mode != "POL" else allc[0]
+        if any(np.abs(pool - p).sum(1).min() > 1e-14 for p in pts):
+            fails.append({"key": "dft-control-not-subset;" + ck, "msg": "reduced control points are not a subset of the candidates"})
+    X0T = raw(nspin, 5)
+    keep = X0T.copy()
+    k1 = np.asarray(dk.get_k(X0T))
+    k2, dk2 = dk.get_k_and_deriv(X0T)
+    evals = 3
+    if not np.array_equal(X0T, keep):
+        fails.append({"key": "input-modified;" + ck, "msg": "get_k / get_k_and_deriv changed the caller's feature array"})
+        X0T = keep.copy()
+    ref = own_k(X0T)
+    if k1.shape != ref.shape or np.abs(k1 - ref).max() > 1e-12 * (1 + np.abs(ref).max()):
+        fails.append({"key": "dft-get_k;" + ck, "msg": "get_k differs from the documented kernel of the transformed features (shape %s vs %s, max diff %s)" % (
+            k1.shape, ref.shape, np.abs(k1 - ref).max() if k1.shape == ref.shape else "n/a")})
+    if np.asarray(k2).shape != k1.shape or np.abs(np.asarray(k2) - k1).max() > 1e-12 * (1 + np.abs(k1).max()):
+        fails.append({"key": "dft-k-vs-k_and_deriv;" + ck, "msg": "get_k_and_deriv returns a different kernel than get_k"})
+    dk2 = np.asarray(dk2)
+    nctrl = k1.shape[0]
+    if dk2.shape != (nctrl, nspin, 3, 5):
+        fails.append({"key": "dft-deriv-shape;" + ck, "msg": "derivative shape %s, documented (%d, %d, 3, 5)" % (dk2.shape, nctrl, nspin)})
+        return {"fail": fails, "evals": evals, "outcome": [ck, "shape"]}
+    worst = 0.0
+    for s_, j in itertools.product(range(nspin), range(3)):
+        ds = []
+        for h in (2e-4, 1e-4):
+            vals = []
+            for sg in (1, -1):
+                Xp = X0T.copy()
+                Xp[s_, j] += sg * h
+                vals.append(own_k(Xp))
+                evals += 1
+            ds.append((vals[0] - vals[1]) / (2 * h))
+        num = (4 * ds[1] - ds[0]) / 3  # (nctrl, [nspin,] nsamp): derivative of every output w.r.t. input (s_, j) of the SAME sample
+        if mode == "SEP":
+            # output (ctrl, spin, sample) depends only on the input of its own spin
+            got = np.zeros_like(num)
+            got[:, s_] = dk2[:, s_, j]
+        else:
+            got = dk2[:, s_, j]
+        err = np.abs(got - num).max() / (1 + np.abs(num).max())
+        worst = max(worst, err)
+        if err > 2e-8:
+            fails.append({"key": "dft-input-gradient;" + ck, "msg": "d k / d X0T[spin %d, feature %d] differs from Richardson differences of the kernel by rel %.3e" % (s_, j, err)})
+            break
+    return {"fail": fails, "evals": evals, "outcome": [ck, int(nctrl), float("%.8e" % np.abs(k1).sum())], "info": {"worst_gradient_err": worst}}
 
 
 def _name(t):
@@ -184,6 +307,8 @@ def _has(t, names):
 
 
 def run_case(case):
+    if case.get("dft"):
+        return run_dft(case)
     t = case["tree"]
     name = _name(t)
     fails = []
